@@ -22,6 +22,23 @@ def branches(v):
     return {(next(iter(c)), cel.vkey(x)) for c, x in ps}
 
 
+def sorting_wrappers(P):
+    """NodesTimestamp::sort_keys and every function in curves:: all of whose entry->return paths call it (or another such function)."""
+    sorters = {"curves::nodes::NodesTimestamp::sort_keys"}
+    grew = True
+    while grew:
+        grew = False
+        for name_, c_ in P.cfgs.items():
+            if name_ in sorters or not name_.startswith("curves::"):
+                continue
+            sb = [i for i, t in c_.calls() if (c_.callee_name(t) or "") in sorters]
+            rets_ = c_.returns()
+            if sb and rets_ and not any(b in c_.reachable_from(0, avoid=sb) for b in rets_):
+                sorters.add(name_)
+                grew = True
+    return sorters
+
+
 def run(ck, facts, tier):
     ev = cel.Ev(facts)
     x1, y1, x2, y2, x, x0 = (Poly.atom(n) for n in ("x1", "y1", "x2", "y2", "x", "x0"))
@@ -144,8 +161,13 @@ def run(ck, facts, tier):
                           "of each variant on every path; every other CurveDF { .. } literal is the derived Clone or is itself dominated by a sort — the loader included", floor=6)
     P = cfgmod.Program(facts)
 
+    # sorting wrappers: a function every entry->return path of which passes through a call to NodesTimestamp::sort_keys (or to another such wrapper), e.g. a
+    # consuming `into_sorted(mut self) -> Self { self.sort_keys(); self }` — calling it is calling the sort
+    sorters = sorting_wrappers(P)
+    ck.extra["sorting_wrappers"] = sorted(sorters)
+
     def sort_dominates(c):
-        sorts = [i for i, t in c.calls() if (c.callee_name(t) or "").endswith("NodesTimestamp::sort_keys")]
+        sorts = [i for i, t in c.calls() if (c.callee_name(t) or "") in sorters]
         aggr = [i for i, b in enumerate(c.blocks) for s in b["stmts"] if s.get("adt", "").endswith("curve::CurveDF")]
         reach = c.reachable_from(0, avoid=sorts)
         return bool(sorts) and bool(aggr) and not any(a in reach for a in aggr), sorts
